@@ -71,7 +71,10 @@ InvDenote   == okUTF => /\ Strip(BOut(st)) = dStrip         \* C09
                         /\ DeleteEnvelopes(BOut(st)) = dSafe
 InvLen      == BLen(st) = Len(BOut(st))
 \* finalize is idempotent and the accessors leave nothing to do twice (C13 value level)
-InvFinalIdem == BFinalize(BFinalize(st)) = BFinalize(st)
+\* (claimed for valid UTF-8 content: the escaper's guard looks at the last rune of the WHOLE buffer, so after finalize
+\*  has trimmed an empty envelope that followed raw-mode bytes ending in a truncated sequence, a second finalize would add
+\*  the '?' guard; the real accessors finalize a copy and Take* resets, so no state is ever finalized twice)
+InvFinalIdem == okUTF => BFinalize(BFinalize(st)) = BFinalize(st)
 \* Reset / Take give the initial state (C13)
 InvPristine == BReset(st) = BInit /\ (WellFormed(BOut(st)) => BTake(st) = BInit)
 \* the already-validated prefix is never touched again and holds no partial envelope state
@@ -90,8 +93,10 @@ QByteArgs == {97, 10, 226, 186}
 TByteArgs == {97, 10, 63, 226, 128, 185, 186, 255}
 QRuneArgs == {97, 8249, 55296}
 TRuneArgs == {97, 10, 8249, 8250, 215, 128512, 55296, -1, 1114112}
-QSpicy == {<<NL, 226, 128>>, StartM \o <<226, 128>>, <<97, NL, 226>>}
-TSpicy == QSpicy \cup {EndM \o <<226>>, <<NL, NL, 226, 128>>, <<226, 128, NL>>, StartM \o <<NL>>, <<195, NL>>}
+\* ... and runes that share bytes with the markers (º = C2 BA, ₺ = E2 82 BA end in the last byte of the end marker)
+\* or with the scanner's sentinel (a genuine U+FFFD = EF BF BD)
+QSpicy == {<<NL, 226, 128>>, StartM \o <<226, 128>>, <<97, NL, 226>>, <<194, 186>>, <<226, 130, 186>>, RuneErrorBytes}
+TSpicy == QSpicy \cup {<<97>> \o RuneErrorBytes, <<194, 185>>, <<226, 128, 187>>, EndM \o <<226>>, <<NL, NL, 226, 128>>, <<226, 128, NL>>, StartM \o <<NL>>, <<195, NL>>}
 QRawFrags == {<<>>, <<97>>, StartM \o <<97>> \o EndM, <<10>>}
 TRawFrags == QRawFrags \cup {RedactedM, <<97>> \o StartM \o <<63>> \o EndM \o <<10>>, StartM \o EndM}
 =============================================================================
